@@ -1,5 +1,6 @@
 use super::*;
 use crate::knox::short_group_sig_core::short_group_traits::ProofOfSignatureKnowledge;
+use crate::statement::SignatureStatement;
 use std::collections::BTreeMap;
 
 impl<S: ShortGroupSignatureScheme> Presentation<S> {
@@ -16,9 +17,16 @@ impl<S: ShortGroupSignatureScheme> Presentation<S> {
         for (id, sig_statement) in &signature_statements {
             match (sig_statement, self.proofs.get(*id)) {
                 (Statements::Signature(ss), Some(PresentationProofs::Signature(proof))) => {
+                    let reported = self.disclosed_messages.get(&ss.id).ok_or_else(|| {
+                        Error::InvalidPresentationData(format!(
+                            "no disclosed messages are reported for statement '{}'",
+                            id
+                        ))
+                    })?;
+                    Self::check_disclosed_messages(ss, proof, reported)?;
                     Self::add_disclosed_messages_challenge_contribution(
                         &ss.id,
-                        &self.disclosed_messages[&ss.id],
+                        reported,
                         &mut transcript,
                     );
                     let verifier = SignatureVerifier::new(ss, proof);
@@ -175,6 +183,42 @@ impl<S: ShortGroupSignatureScheme> Presentation<S> {
             verifier.verify(self.challenge)?;
         }
 
+        Ok(())
+    }
+
+    /// The reported claims must be exactly the requested ones, and the proof's
+    /// index -> scalar map must be exactly their schema indices, in ascending order,
+    /// each with the scalar encoding of the reported claim
+    fn check_disclosed_messages(
+        statement: &SignatureStatement<S>,
+        proof: &SignatureProof<S>,
+        reported: &IndexMap<String, ClaimData>,
+    ) -> CredxResult<()> {
+        let mismatch = || {
+            Error::InvalidPresentationData(format!(
+                "the disclosed messages for statement '{}' do not match the requested claims",
+                statement.id
+            ))
+        };
+        // requested labels the issuer's schema does not contain cannot be disclosed
+        let mut expected = BTreeMap::new();
+        for label in &statement.disclosed {
+            if let Some(index) = statement.issuer.schema.claim_indices.get_index_of(label) {
+                let claim = reported.get(label).ok_or_else(mismatch)?;
+                expected.insert(index, claim.to_scalar());
+            }
+        }
+        if reported.len() != expected.len() || proof.disclosed_messages.len() != expected.len() {
+            return Err(mismatch());
+        }
+        if !proof
+            .disclosed_messages
+            .iter()
+            .map(|(index, scalar)| (*index, *scalar))
+            .eq(expected.into_iter())
+        {
+            return Err(mismatch());
+        }
         Ok(())
     }
 
